@@ -172,8 +172,10 @@ def monitor(case, impl_line):
     for i, (e, g) in enumerate(zip(exp, got)):
         if e != g:
             s = d['sinks'][i]
-            return ('sink %d (%s) was handed %r, the property expects %r (= its own effective pattern for every message line that passes its filters)'
-                    % (i, 'override pattern %r' % s['ov'][0][:60] if s['ov'] else 'no override: the logger\'s pattern', g[:4], e[:4]))
+            k = next((j for j, (x, y) in enumerate(zip(e, g)) if x != y), min(len(e), len(g)))
+            return ('sink %d (%s) was handed %d lines, line %d on: %r; the property expects %d lines, line %d on: %r (= the lines of its own effective pattern for every message line that passes its filters)'
+                    % (i, 'override pattern %r' % s['ov'][0][:60] if s['ov'] else 'no override: the logger\'s pattern',
+                       len(g), k, [x[:120] for x in g[k:k + 3]], len(e), k, [x[:120] for x in e[k:k + 3]]))
     return None
 
 
